@@ -103,9 +103,22 @@ impl Oracle for Authentic {
                 ));
             }
             if j.from_addr != w.nodes[q].addr {
+                // Was a WHOAREYOU that node h had sent TO THAT ADDRESS passed on to node q (which answered it in
+                // good faith)? Then the party at that address is a relay between h and q: the handshake q
+                // produced verifies against h's own challenge for that address. The protocol does not bind
+                // addresses into the handshake - recorded as a known finding under its own signature.
+                let relayed = w.log.iter().any(|d| {
+                    d.from_node == Some(h)
+                        && d.to_addr == j.from_addr
+                        && d.to_id.raw() == w.nodes[q].id
+                        && matches!(d.decoded.as_ref().map(|p| &p.0.kind), Some(discv5::packet::PacketKind::WhoAreYou { .. }))
+                        && w.injections.iter().any(|x| x.to_node == q && x.bytes == d.bytes)
+                        // (and it was THAT datagram: node h never sent node q's own address the same bytes)
+                        && !w.log.iter().any(|o| o.idx != d.idx && o.from_node == Some(h) && o.to_addr == w.nodes[q].addr && o.bytes == d.bytes)
+                });
                 return Some((
-                    "authentic/delivery-from-wrong-source-address".into(),
-                    format!("node {h} delivered {what} from a genuine datagram of node {q} presented from {} ({manip})", j.from_addr),
+                    if relayed { "authentic/delivery-from-wrong-source-address/handshake-relayed-through-that-address".to_string() } else { "authentic/delivery-from-wrong-source-address".to_string() },
+                    format!("node {h} delivered {what} from a genuine datagram of node {q} presented from {} ({manip}){}", j.from_addr, if relayed { format!("; node {h}'s WHOAREYOU for that address had been passed on to node {q}, whose handshake then verified there") } else { String::new() }),
                 ));
             }
             if addr.node_id.raw() != w.nodes[q].id || addr.socket_addr != w.nodes[q].addr {
